@@ -128,7 +128,7 @@ func init() {
 	}
 
 	punctTable := []int{
-		0, '\r', 0, 0, 0, 0, '!', '\'', '#', '$', '%', '&', '\'',
+		0, '\r', 0, 0, 0, 0, '!', '"', '#', '$', '%', '&', '\'',
 		'(', ')', '*', '+', ',', '-', '.', '/', ':', ';', '<', '=', '>', '?',
 		'[', ']', '{', '}',
 	}
